@@ -87,17 +87,25 @@ Bodies(role) ==
 \* oracle bit of a payload: the SEC bytes of an extended PUBLIC key sit at 46..78 of a 78-byte payload
 PayOn(d) == Len(d) = 78 /\ SecOn(SubSeq(d, 46, 78))
 PayKnown(d) == Len(d) = 78 => SecKnown(SubSeq(d, 46, 78))
-B58T(N, d) == [TX("b58c") EXCEPT !.d = d, !.w = N.chk, !.on = PayOn(d)]
+\* (the texts are built under double-SHA256 for every network: for the Groestlcoin family they carry that
+\*  family's version bytes under the WRONG checksum function and must be refused)
+B58T(N, d) == [TX("b58c") EXCEPT !.d = d, !.w = "sha256d", !.on = PayOn(d)]
 B58Grid(N) == UNION {{B58T(N, r.pfx \o b) : b \in Bodies(r.name)} : r \in Roles(N)}
-              \cup {[TX("b58bad") EXCEPT !.d = (IF N.p2pkh # <<>> THEN N.p2pkh ELSE <<0>>) \o H(20), !.w = N.chk]}
+              \cup {[TX("b58bad") EXCEPT !.d = (IF N.p2pkh # <<>> THEN N.p2pkh ELSE <<0>>) \o H(20), !.w = "sha256d"]}
 
 \* ---- segwit grid ------------------------------------------------------------------------
 OtherHrp == <<122, 122>>
 SegShapes == {<<0, 20, "bech32">>, <<0, 32, "bech32">>, <<1, 32, "bech32m">>, <<0, 20, "bech32m">>, <<1, 32, "bech32">>,
-              <<0, 21, "bech32">>, <<0, 19, "bech32">>, <<1, 20, "bech32m">>, <<1, 33, "bech32m">>, <<2, 32, "bech32m">>, <<16, 32, "bech32m">>}
+              <<0, 21, "bech32">>, <<0, 19, "bech32">>, <<0, 0, "bech32">>, <<1, 0, "bech32m">>, <<0, 0, "bech32m">>, <<1, 20, "bech32m">>, <<1, 33, "bech32m">>, <<2, 32, "bech32m">>, <<16, 32, "bech32m">>}
 SegT(hrp, sh) == [TX("seg") EXCEPT !.a = hrp, !.v = sh[1], !.d = H(sh[2]), !.w = sh[3]]
 SegGrid(N) == {SegT(hrp, sh) : hrp \in ({N.hrp} \ {<<>>}) \cup {OtherHrp}, sh \in SegShapes}
               \cup {[TX("segbad") EXCEPT !.a = IF N.hrp # <<>> THEN N.hrp ELSE OtherHrp, !.d = H(20), !.w = "bech32"]}
+
+\* ---- Bech32 texts that are not of the segwit shape: empty data part; a version symbol followed by ONE
+\*      symbol (5 bits: no byte, too much padding); two symbols with non-zero padding bits
+BechT(hrp, syms, const) == [TX("bech") EXCEPT !.a = hrp, !.d = syms, !.w = const]
+BechGrid(N) == {BechT(hrp, syms, c) : hrp \in ({N.hrp} \ {<<>>}) \cup {OtherHrp, <<97>>},
+                                      syms \in {<<>>, <<0, 0>>, <<1, 31>>, <<0, 1, 1>>, <<16, 0, 0, 1>>}, c \in {"bech32", "bech32m"}}
 
 \* ---- colon forms ---------------------------------------------------------------------------
 HexDigit(k) == IF k < 10 THEN 48 + k ELSE 87 + k
@@ -146,7 +154,7 @@ ScriptGrid == {[TX("script") EXCEPT !.toks = s] :
                          Build("nulldata", [rest |-> <<Push(20, "min", 2)>>]), <<SmallInt(1)>>, <<Op("DUP"), Push(19, "min", 2)>> }}
 JunkGrid == {[TX("junk") EXCEPT !.v = i] : i \in 1..24}        \* the harness owns the list of junk texts (totality only)
 
-Grid(N) == B58Grid(N) \cup SegGrid(N) \cup HexSecGrid(N)
+Grid(N) == B58Grid(N) \cup SegGrid(N) \cup BechGrid(N) \cup HexSecGrid(N)
            \cup (IF "*" \in Generic \/ N.sym \in Generic THEN ColonGrid \cup NumGrid \cup PairGrid \cup ScriptGrid \cup JunkGrid ELSE {})
 
 \* ---- export ---------------------------------------------------------------------------------------------
@@ -171,6 +179,7 @@ LenClass(n) == IF n \in {0, 16, 20, 32, 33, 64, 65} THEN ToString(n) ELSE "other
 ClassOf(N, T) ==
   CASE T.f = "b58c" -> [f |-> T.f, starts |-> Starts(N, T), fits |-> Fits(N, T)]
     [] T.f = "seg" -> [f |-> T.f, own |-> T.a = N.hrp, ver |-> T.v, len |-> Len(T.d), var |-> T.w]
+    [] T.f = "bech" -> [f |-> T.f, own |-> T.a = N.hrp, n |-> Len(T.d), var |-> T.w]
     [] T.f = "colon" -> [f |-> T.f, tag |-> T.a, w |-> T.w, w2 |-> T.w2, len |-> LenClass(Len(T.d)), on |-> T.on,
                          se |-> Len(T.d) = 32 /\ ValidSecret(T.d)]
     [] T.f = "num" -> [f |-> T.f, w |-> T.w, even |-> T.v % 2 = 0, len |-> LenClass(Len(T.d2)), b0 |-> IF T.d2 = <<>> THEN 0 ELSE T.d2[1],
